@@ -265,9 +265,15 @@ pub fn declared_exclusions_of(
             let mut r = Ranges::new();
             let ex = a.get("exclusions")?.as_array()?;
             let top = bmff_top_level(original);
+            // with Merkle maps the assertion declares the mdat payload covered leaf by leaf: its
+            // /mdat exclusion only takes it out of the flat hash
+            let has_merkle = a.get("merkle").and_then(|m| m.as_array()).map(|m| !m.is_empty()).unwrap_or(false);
             for e in ex {
                 let xp = e.get("xpath")?.as_str()?;
                 let name = xp.trim_start_matches('/');
+                if has_merkle && name == "mdat" {
+                    continue;
+                }
                 if name.contains('/') || name.len() != 4 {
                     continue; // nested paths: not present in our workloads
                 }
@@ -291,7 +297,18 @@ pub fn declared_exclusions_of(
                         }
                     }
                     if ok {
-                        r.push((*s, *en));
+                        match e.get("subset").and_then(|x| x.as_array()) {
+                            Some(subs) if !subs.is_empty() => {
+                                for sb in subs {
+                                    let off = sb.get("offset").and_then(|o| o.as_u64()).unwrap_or(0) as usize;
+                                    let len = sb.get("length").and_then(|o| o.as_u64()).unwrap_or(0) as usize;
+                                    let a0 = (*s + off).min(*en);
+                                    let a1 = if len == 0 { *en } else { (a0 + len).min(*en) };
+                                    r.push((a0, a1));
+                                }
+                            }
+                            _ => r.push((*s, *en)),
+                        }
                     }
                 }
             }
